@@ -43,6 +43,12 @@ fn real_binary() -> Option<std::path::PathBuf> {
 /// Runs `argv` with the shipped binary on the world materialised in a real directory;
 /// returns (exit ok, stdout) with the directory prefix mapped back to /w.
 fn run_real(files: &std::collections::BTreeMap<String, Vec<u8>>, argv: &[String]) -> Option<(bool, Vec<u8>)> {
+    run_real_full(files, argv).map(|(ok, out, _)| (ok, out))
+}
+
+/// Exit status, stdout and stderr of the shipped binary on a real directory (the scratch
+/// directory's name replaced by /w in both streams).
+fn run_real_full(files: &std::collections::BTreeMap<String, Vec<u8>>, argv: &[String]) -> Option<(bool, Vec<u8>, Vec<u8>)> {
     let bin = real_binary()?;
     let dir = crate::checks::c11::materialise(files).ok()?;
     let prefix = dir.to_string_lossy().to_string();
@@ -51,7 +57,8 @@ fn run_real(files: &std::collections::BTreeMap<String, Vec<u8>>, argv: &[String]
     crate::checks::c11::cleanup_real(&dir);
     let out = out.ok()?;
     let stdout = String::from_utf8_lossy(&out.stdout).replace(&prefix, "/w").into_bytes();
-    Some((out.status.success(), stdout))
+    let stderr = String::from_utf8_lossy(&out.stderr).replace(&prefix, "/w").into_bytes();
+    Some((out.status.success(), stdout, stderr))
 }
 
 pub fn eval_exprs(rng: &mut Rng, coms: &[String]) -> String {
@@ -374,11 +381,26 @@ impl Check for C13 {
                     continue;
                 }
                 let sim = observe(&files, &no_faults, &Proc::plain(sc.procs[0].hash_seed), sc.today[0], cmd, out);
-                let again = run_real(&plain, cmd);
-                match run_real(&plain, cmd) {
-                    Some((ok, stdout)) => {
+                let again = run_real_full(&plain, cmd);
+                match run_real_full(&plain, cmd) {
+                    Some((ok, stdout, stderr)) => {
                         out.count("traces_validated_against_shipped_binary");
-                        if let Some((ok2, stdout2)) = &again {
+                        if let Some((ok2, stdout2, stderr2)) = &again {
+                            if *ok2 == ok && *stdout2 == stdout && *stderr2 != stderr {
+                                // same status and output, another error text: an address, a pid, a time
+                                out.violate_keyed(
+                                    "C13/real-process",
+                                    cmd[0].clone(),
+                                    format!("{}: two processes of the shipped binary print different error text", cmd[0]),
+                                    format!(
+                                        "argv={:?}\n--- stderr of the first process ---\n{}\n--- stderr of the second process ---\n{}",
+                                        cmd,
+                                        String::from_utf8_lossy(stderr2),
+                                        String::from_utf8_lossy(&stderr)
+                                    ),
+                                );
+                                continue;
+                            }
                             if *ok2 != ok || *stdout2 != stdout {
                                 // two OS processes of the shipped binary, each with its own hash seed
                                 out.violate_keyed(
